@@ -50,7 +50,7 @@ def gen_corpus(seed, tier):
         elif kind == "graph":
             fam = rng.choice(["rand", "struct", "irred", "irred"])
             n = rng.randint(4, nmax)
-            style = rng.weighted([("frontend", 4), ("generator", 3), ("bytecode", 2)])
+            style = rng.weighted([("frontend", 4), ("generator", 3), ("bytecode", 2), ("zeropad", 1)])
             jobs.append({"kind": "graph", "family": fam,
                          "blocks": graphgen.gen_graph(rng.fork("g"), fam, n, style)})
         elif kind in ("src", "bc"):
